@@ -35,25 +35,46 @@ def _kinds(s):
     return {"cells": set(s.cells), "refs": set(s._own_refs), "spaces": set(s.named_spaces)}
 
 def space_violations(m, s, path, dyn_base=None, params=()):
-    """violations of NU / NS in one space: list of (symptom, detail, python expression that is truthy iff violated)"""
+    """violations of NU / NS in one space: list of (symptom, detail, python expression that is truthy iff violated).
+    Reading a container, dir() or an attribute is an operation the property says succeeds: an exception raised by
+    modelx there is a violation (symptom *-crash), not a fault of the checker."""
     out = []
-    k = _kinds(s)
+
+    def crashed(what, e, expr_text):
+        out.append(("ns:%s-crash:%s" % (what, type(e).__name__), "%s: %s raised %s: %s"
+                    % (path, expr_text, type(e).__name__, str(e)[:120]), "raises(lambda: %s)" % expr_text))
+
+    try:
+        k = _kinds(s)
+    except Exception as e:
+        crashed("containers", e, "(list(%s.cells), list(%s._own_refs), list(%s.named_spaces))" % (path, path, path))
+        return out
     for a, b in (("cells", "refs"), ("cells", "spaces"), ("refs", "spaces")):
         both = k[a] & k[b]
         if both:
             cont = {"cells": "cells", "refs": "_own_refs", "spaces": "named_spaces"}
             out.append(("nu:%s+%s" % (a, b), "%s: %s both in %s and %s" % (path, sorted(both), a, b),
                         "set(%s.%s) & set(%s.%s)" % (path, cont[a], path, cont[b])))
-    d = dir(s)
+    try:
+        d = dir(s)
+    except Exception as e:
+        crashed("dir", e, "dir(%s)" % path)
+        return out
     if len(d) != len(set(d)):
         out.append(("ns:dir-duplicates", "%s: dir() = %s" % (path, sorted(d)), "len(dir(%s)) != len(set(dir(%s)))" % (path, path)))
-    own = set((dyn_base if dyn_base is not None else s)._own_refs)
-    want_refs = own | SPECIAL | set(m.refs) | set(params)
-    if set(s.refs) != want_refs:
+    try:
+        refs = set(s.refs)
+        own = set((dyn_base if dyn_base is not None else s)._own_refs)
+        mrefs = set(m.refs)
+    except Exception as e:
+        crashed("refs", e, "list(%s.refs)" % path)
+        return out
+    want_refs = own | SPECIAL | mrefs | set(params)
+    if refs != want_refs:
         out.append(("ns:refs", "%s: refs = %s, expected own+parameters+special+model-level = %s"
-                    % (path, sorted(s.refs), sorted(want_refs)),
+                    % (path, sorted(refs), sorted(want_refs)),
                     "set(%s.refs) != %r" % (path, want_refs)))
-    want = k["cells"] | set(s.refs) | k["spaces"]
+    want = k["cells"] | refs | k["spaces"]
     if set(d) != want:
         out.append(("ns:dir", "%s: dir() = %s, containers = %s" % (path, sorted(d), sorted(want)),
                     "set(dir(%s)) != set(%s.cells) | set(%s.refs) | set(%s.named_spaces)" % (path, path, path, path)))
@@ -62,6 +83,9 @@ def space_violations(m, s, path, dyn_base=None, params=()):
             v = getattr(s, n); has = True
         except AttributeError:
             has = False
+        except Exception as e:
+            crashed("attr", e, "getattr(%s, %r)" % (path, n))
+            continue
         if has != (n in want):
             out.append(("ns:attr-presence", "%s.%s: attribute access %s, containers say %s"
                         % (path, n, has, n in want), "hasattr(%s, %r) != %r" % (path, n, n in want)))
@@ -70,53 +94,94 @@ def space_violations(m, s, path, dyn_base=None, params=()):
             continue
         if sum(n in k[c] for c in k) > 1:
             continue        # reported as a NU violation
-        if (n in k["cells"] or n in k["spaces"]) and n in s.refs:
+        if (n in k["cells"] or n in k["spaces"]) and n in refs:
             continue        # a member and a model-level name: the statement gives no precedence between them
-        if n in k["cells"]:
-            exp, ex = s.cells[n], "%s.cells[%r]" % (path, n)
-        elif n in k["spaces"]:
-            exp, ex = s.named_spaces[n], "%s.named_spaces[%r]" % (path, n)
-        elif n in params:
-            continue
-        elif n in own:
-            exp, ex = (dyn_base if dyn_base is not None else s)._own_refs[n], None
-        else:
-            exp, ex = s.refs[n], "%s.refs[%r]" % (path, n)
-        if n in own and dyn_base is not None:
-            continue        # bound in the dynamic tree (property C10)
-        if ex is None:
-            ex = "%s._own_refs[%r]" % (path, n)
-        if v is not exp and v != exp:
-            out.append(("ns:attr-value", "%s.%s is %r, the container holds %r" % (path, n, v, exp),
-                        "getattr(%s, %r) is not %s and getattr(%s, %r) != %s" % (path, n, ex, path, n, ex)))
-    for n, c in s.cells.items():
-        if c.name != n or c.parent is not s:
-            out.append(("ns:member-name", "%s.cells[%r] has name %r, parent %r" % (path, n, c.name, c.parent),
-                        "%s.cells[%r].name != %r or %s.cells[%r].parent is not %s" % (path, n, n, path, n, path)))
-    for n, c in s.named_spaces.items():
-        if c.name != n or c.parent is not s:
-            out.append(("ns:member-name", "%s.named_spaces[%r] has name %r" % (path, n, c.name),
-                        "%s.named_spaces[%r].name != %r" % (path, n, n)))
-    if "zz" in k["cells"] and len(s.cells["zz"].parameters) == 1:
-        _tick[0] += 1
         try:
-            seen = set(s.cells["zz"](_tick[0]))
+            if n in k["cells"]:
+                exp, ex = s.cells[n], "%s.cells[%r]" % (path, n)
+            elif n in k["spaces"]:
+                exp, ex = s.named_spaces[n], "%s.named_spaces[%r]" % (path, n)
+            elif n in params:
+                continue
+            elif n in own:
+                if dyn_base is not None:
+                    continue        # bound in the dynamic tree (property C10)
+                exp, ex = s._own_refs[n], "%s._own_refs[%r]" % (path, n)
+            else:
+                exp, ex = s.refs[n], "%s.refs[%r]" % (path, n)
         except Exception as e:
-            seen = "EXC:" + type(e).__name__
-        if seen != set(d):
-            out.append(("ns:formula-names", "%s: a formula sees %s, dir() = %s"
-                        % (path, sorted(seen) if isinstance(seen, set) else seen, sorted(d)),
-                        "set(%s.cells['zz'](%d)) != set(dir(%s))" % (path, 10 ** 6 + _tick[0], path)))
+            crashed("container-item", e, "(%s.cells, %s.refs)[0 if %r in %s.cells else 1][%r]" % (path, path, n, path, n))
+            continue
+        try:
+            differs = v is not exp and v != exp
+            shown = "%r, the container holds %r" % (v, exp)
+        except Exception as e:
+            crashed("attr-compare", e, "getattr(%s, %r) != %s" % (path, n, ex))
+            continue
+        if differs:
+            out.append(("ns:attr-value", "%s.%s is %s" % (path, n, shown),
+                        "getattr(%s, %r) is not %s and getattr(%s, %r) != %s" % (path, n, ex, path, n, ex)))
+    try:
+        for n, c in s.cells.items():
+            if c.name != n or c.parent is not s:
+                out.append(("ns:member-name", "%s.cells[%r] has name %r, parent %r" % (path, n, c.name, c.parent),
+                            "%s.cells[%r].name != %r or %s.cells[%r].parent is not %s" % (path, n, n, path, n, path)))
+        for n, c in s.named_spaces.items():
+            if c.name != n or c.parent is not s:
+                out.append(("ns:member-name", "%s.named_spaces[%r] has name %r" % (path, n, c.name),
+                            "%s.named_spaces[%r].name != %r" % (path, n, n)))
+    except Exception as e:
+        crashed("member", e, "[(c.name, c.parent) for c in list(%s.cells.values()) + list(%s.named_spaces.values())]"
+                % (path, path))
+    if "zz" in k["cells"]:
+        try:
+            probe_ok = len(s.cells["zz"].parameters) == 1
+        except Exception:
+            probe_ok = False
+        if probe_ok:
+            _tick[0] += 1
+            try:
+                seen = set(s.cells["zz"](_tick[0]))
+            except Exception as e:
+                seen = "EXC:" + type(e).__name__
+            if seen != set(d):
+                out.append(("ns:formula-names", "%s: a formula sees %s, dir() = %s"
+                            % (path, sorted(seen) if isinstance(seen, set) else seen, sorted(d)),
+                            "set(val(lambda: %s.cells['zz'](%d))) != set(dir(%s))" % (path, 10 ** 6 + _tick[0], path)))
     return out
 
+def val(thunk):
+    try:
+        return thunk()
+    except Exception as e:
+        return ["EXC:" + type(e).__name__]
+
 def violations(m):
+    """all violations in the model; an exception that escapes from inside modelx during a read is a violation,
+    any other exception is a fault of this checker and propagates"""
+    try:
+        return _violations(m)
+    except Exception as e:
+        tb = e.__traceback__
+        while tb.tb_next is not None:
+            tb = tb.tb_next
+        if "modelx" not in tb.tb_frame.f_code.co_filename:
+            raise
+        return [("ns:read-crash:" + type(e).__name__, "reading the model raised %s: %s" % (type(e).__name__, e),
+                 "raises(lambda: [(s.name, list(s.cells), list(s.refs), dir(s)) for s in m.spaces.values()])", "m")]
+
+def _violations(m):
     out = []
-    both = set(m.spaces) & set(m.refs)
+    try:
+        both = set(m.spaces) & set(m.refs)
+        d = dir(m)
+        want = set(m.spaces) | set(m.refs)
+    except Exception as e:
+        return [("ns:model-crash:" + type(e).__name__, "reading model.spaces / model.refs / dir(model) raised %r" % e,
+                 "raises(lambda: (list(m.spaces), list(m.refs), dir(m)))", "m")]
     if both:
         out.append(("nu:model-spaces+refs", "model: %s both a space and a reference" % sorted(both),
                     "set(m.spaces) & set(m.refs)", "m"))
-    d = dir(m)
-    want = set(m.spaces) | set(m.refs)
     if len(d) != len(set(d)) or set(d) != want:
         out.append(("ns:model-dir", "dir(model) = %s, spaces + refs = %s" % (sorted(d), sorted(want)),
                     "len(dir(m)) != len(set(dir(m))) or set(dir(m)) != set(m.spaces) | set(m.refs)", "m"))
@@ -125,6 +190,10 @@ def violations(m):
             v = getattr(m, n); has = True
         except AttributeError:
             has = False
+        except Exception as e:
+            out.append(("ns:model-attr-crash:" + type(e).__name__, "model.%s raised %r" % (n, e),
+                        "raises(lambda: getattr(m, %r))" % n, "m"))
+            continue
         if has != (n in want):
             out.append(("ns:model-attr", "model.%s: attribute access %s, containers say %s" % (n, has, n in want),
                         "hasattr(m, %r) != %r" % (n, n in want), "m"))
@@ -135,17 +204,30 @@ def violations(m):
         if s.name != n:
             out.append(("ns:member-name", "model.spaces[%r] has name %r" % (n, s.name),
                         "m.spaces[%r].name != %r" % (n, n), "m"))
-    for s, path, base, params in walk(m):
+    try:
+        nodes = list(walk(m))
+    except Exception as e:
+        out.append(("ns:walk-crash:" + type(e).__name__, "walking the spaces of the model raised %r" % e,
+                    "raises(lambda: list(walk(m)))", "m"))
+        nodes = []
+    for s, path, base, params in nodes:
         if s is None:
-            out.append(("ns:itemspace-crash", "%s raised %s" % (path, base), "raises(lambda: %s)" % path, path))
+            out.append(("ns:itemspace-crash:" + base, "%s raised %s" % (path, base), "raises(lambda: %s)" % path, path))
             continue
         for v in space_violations(m, s, path, base, params):
             out.append(v + (path,))
-        for n, c in s.cells.items():
+        try:
+            cells = list(s.cells.items())
+        except Exception:
+            cells = []
+        for n, c in cells:
             try:
                 c._impl.check_sanity()
             except AssertionError:
                 out.append(("sc:cells", "%s.cells[%r]: CellsImpl.check_sanity() fails" % (path, n),
+                            "raises(lambda: %s.cells[%r]._impl.check_sanity())" % (path, n), path))
+            except Exception as e:
+                out.append(("sc:cells-crash:" + type(e).__name__, "%s.cells[%r]: check_sanity raised %r" % (path, n, e),
                             "raises(lambda: %s.cells[%r]._impl.check_sanity())" % (path, n), path))
     from modelx.core import mxsys
     try:
@@ -159,6 +241,9 @@ def violations(m):
         line = linecache.getline(tb.tb_frame.f_code.co_filename, tb.tb_lineno).split("#")[0].strip()
         out.append(("sc:%s:%s" % (owner, "_".join(line.split())[:50]),
                     "%s._check_sanity() fails at: %s" % (owner, line),
+                    "raises(lambda: mxsys_check())", "m"))
+    except Exception as e:
+        out.append(("sc:crash:" + type(e).__name__, "System._check_sanity() raised %r" % e,
                     "raises(lambda: mxsys_check())", "m"))
     return out
 
@@ -234,14 +319,17 @@ class Live:
         self.lines.append(line)
         return None
 
-    def script(self, probe, full_checker=False):
+    def script(self, probe):
         pre = HEAD
+        body = "\n".join(self.lines)
         if "raises(" in probe or "mxsys_check" in probe:
             pre += ("\ndef raises(thunk):\n    try:\n        thunk()\n        return False\n"
-                    "    except Exception:\n        return True\n"
+                    "    except Exception as e:\n        print('raised', type(e).__name__, e)\n        return True\n"
                     "\ndef mxsys_check():\n    from modelx.core import mxsys\n    mxsys._check_sanity()\n")
-        body = "\n".join(self.lines)
-        if "reads(m)" in body:
+        if "val(" in probe:
+            pre += ("\ndef val(thunk):\n    try:\n        return thunk()\n    except Exception as e:\n"
+                    "        return ['EXC:' + type(e).__name__]\n")
+        if "reads(m)" in body or "walk(m)" in probe:
             pre += WALK
         return (pre + "\n" + body + "\n\nviolated = bool(%s)\nprint('violated:', violated)\n"
                 "sys.exit(1 if violated else 0)\n" % probe)
@@ -267,20 +355,23 @@ def vocabulary(names, level):
             add("set-ref", "%s.%s = %%(v)d" % (s, n), s)
             add("new-child-space", "%s.new_space(%r)" % (s, n), s)
             add("del-member", "del %s.%s" % (s, n), s)
-        add("rename-cells", "%s.cells['x'].rename('y')" % s, s)
-        add("rename-child-space", "%s.named_spaces['x'].rename('y')" % s, s)
-        if "y" in names:
-            add("rename-cells", "%s.cells['y'].rename('x')" % s, s)
+        if level >= 0:
+            add("rename-cells", "%s.cells['x'].rename('y')" % s, s)
+            add("rename-child-space", "%s.named_spaces['x'].rename('y')" % s, s)
+            if "y" in names:
+                add("rename-cells", "%s.cells['y'].rename('x')" % s, s)
         for t in SPACES:
             if s != t:
                 add("add-base", "%s.add_bases(%s)" % (s, t), s)
                 add("remove-base", "%s.remove_bases(%s)" % (s, t), s)
     for n in names:
         add("set-model-ref", "m.%s = %%(v)d" % n)
-        add("new-model-space", "m.new_space(%r)" % n)
-        add("del-model-member", "del m.%s" % n)
-    add("rename-space", "S0.rename('x')", "S0")
-    add("rename-space", "S2.rename('x')", "S2")
+        if level >= 0:
+            add("new-model-space", "m.new_space(%r)" % n)
+            add("del-model-member", "del m.%s" % n)
+    if level >= 0:
+        add("rename-space", "S0.rename('x')", "S0")
+        add("rename-space", "S2.rename('x')", "S2")
     if level >= 1:
         for s in SPACES:
             add("set-parameters", "%s.formula = 'lambda i: None'" % s, s)
@@ -315,9 +406,9 @@ def build(spec):
         arg = (", bases=[%s]" % ", ".join("S%d" % b for b in bs)) if bs else ""
         L.do("S%d = m.new_space('S%d'%s)" % (i, i, arg))
     if spec.zz:
-        for i in range(len(spec.bases)):
-            # probe: the names a formula of this space sees
-            L.do("S%d.new_cells('zz', formula='lambda t: sorted(globals())')" % i)
+        for i, bs in enumerate(spec.bases):
+            if not bs:      # probe: the names a formula of this space sees (sub spaces derive the probe)
+                L.do("S%d.new_cells('zz', formula='lambda t: sorted(globals())')" % i)
     return L
 
 
@@ -489,8 +580,8 @@ def run(res, tier, seed):
         plan = [(("x", "y"), 1, 2, (False, True)), (("x",), 1, 3, (False, True)), (("x", "y"), 0, 3, (True,))]
         nsample = 6000
     else:
-        plan = [(("x", "y"), 1, 2, (False, True)), (("x",), 0, 3, (True,))]
-        nsample = 500
+        plan = [(("x", "y"), 1, 2, (False, True)), (("x",), -1, 3, (True,))]
+        nsample = 300
     res.bound = ("initial models: the %d consistent ordered-base DAGs on 3 spaces (up to relabelling), each space "
                  "with a probe cells; all histories of edits from the fixed vocabulary with (names, vocabulary "
                  "level, max edits, reads between edits) in %s, a history being continued only through accepted "
@@ -498,7 +589,8 @@ def run(res, tier, seed):
                  % (len(shapes), plan, nsample))
     res.rule = ("vocabulary (per space and name): new_cells by name / by formula name, reference assignment, child "
                 "space, del, rename cells x<->y, rename child space, add_bases / remove_bases for every ordered pair, "
-                "model-level reference / space / del, rename a top-level space to x; level 1 adds parameters, new "
+                "model-level reference / space / del, rename a top-level space to x (level -1: without the renames "
+                "and the model-level space / del); level 1 adds parameters, new "
                 "sub space, child space with a base, copy of a space / cells, defcells, absref to a space, "
                 "auto-named cells.  Every edit is tried whatever the state; NU / NS / the sanity self-checks are "
                 "evaluated on the live objects after the last edit (accepted or refused).  Non-trivial: the last "
